@@ -32,6 +32,11 @@ Definition c16_rechunker (s : tstored) (dst_state : Z) (replace : bool) (comp tg
   : list (fsys tbytes) * res unit :=
   @rechunker_run tbytes tenc tdec (c16_fs0 s dst_state) P_SRC P_DST P_TMP replace comp tgt rechunk.
 
+(* dest_directory resolving to the source directory itself *)
+Definition c16_rechunker_same (s : tstored) (comp tgt : option Z) (rechunk : bool)
+  : list (fsys tbytes) * res unit :=
+  @rechunker_run tbytes tenc tdec [(P_SRC, s)] P_SRC P_SRC P_TMP false comp tgt rechunk.
+
 Definition c16_copy (s : tstored) (dst_state : Z) (comp : option Z) (rechunk : bool) (rechunk_to : Z)
   : list (fsys tbytes) * res unit :=
   @copy_run tbytes tenc tdec (c16_fs0 s dst_state) P_SRC P_DST P_TMP comp rechunk rechunk_to.
